@@ -430,8 +430,22 @@ def slot_symmetry(prog: Program, rep, RID: str):
                 tests = enclosing_tests(k_init.node, st)
                 if any("given_weights" in norm(t) for t, pol in tests):
                     disabled = True
-        if rejected or disabled:
-            rep.ok(RID, key, f"with given weights `{oname}` is {'rejected' if rejected else 'switched off'}", g.loc())
+        # a guard `if options.get(name, D): raise` covers the caller who sets the option; the caller who leaves it out gets the base class's default:
+        # if that default is True while D is False, the effect stays active under default options and has to be switched off
+        base_default = None
+        for st in prog.cls("AbstractWalkModelDiGraph").node.body:
+            if isinstance(st, ast.Assign) and any(isinstance(t, ast.Name) and t.id == attr for t in st.targets) and isinstance(st.value, ast.Constant):
+                base_default = st.value.value
+        guard_defaults = [c.args[1].value for st in ast.walk(g.node) if isinstance(st, ast.If) and f"'{oname}'" in norm(st.test) and any(isinstance(x, ast.Raise) for x in st.body)
+                          for c in ast.walk(st.test) if isinstance(c, ast.Call) and isinstance(c.func, ast.Attribute) and c.func.attr == "get" and len(c.args) == 2 and
+                          isinstance(c.args[1], ast.Constant)]
+        absent_case_open = rejected and not disabled and base_default is True and guard_defaults and all(d is False for d in guard_defaults)
+        if absent_case_open:
+            rep.violation(RID, key, f"with given weights `{oname}` is rejected only when the caller sets it: the guard reads the option with the default False, the base class "
+                          f"defaults it to True, so under default options the index-specific effect (AbstractWalkModelDiGraph._apply_safety_optimizations line {site.lineno}) "
+                          "stays active - s->a 5, a->t 5, s->b 3, b->t 3 with given_weights=[3, 5] is kInfeasible while [5, 3] is solved", g.loc())
+        elif rejected or disabled:
+            rep.ok(RID, key, f"with given weights `{oname}` is {'rejected' if rejected else 'switched off'}" + (" when set and switched off when left out" if rejected and disabled else ""), g.loc())
         else:
             rep.violation(RID, key, f"given weights pin walk i to weight i, but the index-specific safety effect under `{oname}` "
                           f"(AbstractWalkModelDiGraph._apply_safety_optimizations line {site.lineno}) stays active: sequence i need not be in the walk of weight i, "
